@@ -147,4 +147,52 @@ Section Ligero.
     do _ <- path_loop cext (lf_cols pf) idx (lf_paths pf);
     do ab <- tensor_ml point n_cols;
     l_check_g wf n_cols n_ext omega cext (fst ab) (snd ab) value pf r idx.
+  (* ---------------- any linear code given by its generator matrix (Brakedown) ---------------- *)
+  (* the encoder as the matrix of the images of the unit messages: G_i = encode(e_i), one row per message position *)
+  Definition mat_enc (G : list (list F)) (n_ext : nat) (msg : list F) : list F :=
+    map (fun j => ip msg (col j G)) (seq 0 n_ext).
+
+  Definition l_open_e (enc : list F -> list F) (wf : bool) (n_cols n_ext : nat) (rows : list (list F)) (b : list F)
+             (r : list F) (idx : list nat) : res LProof :=
+    let ext := map enc rows in
+    do wfv <- (if wf then do v <- row_mul rows n_cols r; Ok (Some v) else Ok None);
+    do v <- row_mul rows n_cols b;
+    if existsb (fun i => n_ext <=? i)%nat idx then Panic else
+    Ok {| lf_paths := map (fun i => mkLPth i true) idx; lf_v := v; lf_cols := map (fun i => col i ext) idx; lf_wf := wfv |}.
+
+  Definition l_check_e (enc : list F -> list F) (wf : bool) (n_cols : nat) (cext : list (list F)) (a b : list F) (value : F)
+             (pf : LProof) (r : list F) (idx : list nat) : res bool :=
+    if negb (length (lf_v pf) =? n_cols)%nat then Err EInvalidCommitment else
+    do out <- (if wf then
+                 match lf_wf pf with
+                 | None => Err EInvalidCommitment
+                 | Some w => if negb (length w =? n_cols)%nat then Err EInvalidCommitment else Ok (Some w)
+                 end
+               else Ok None);
+    do _ <- path_loop cext (lf_cols pf) idx (lf_paths pf);
+    let w := enc (lf_v pf) in
+    let vecs := match out with
+                | Some wfv => [(r, enc wfv); (b, w)]
+                | None => [(b, w)]
+                end in
+    do _ <- ip_loop vecs (lf_cols pf) idx;
+    Ok (feqb (ip (lf_v pf) a) value).
+
+  (* multilinear Brakedown: tensor as multilinear Ligero, encoder = generator matrix *)
+  Definition l_open_bd (G : list (list F)) (wf : bool) (n_cols n_ext : nat) (rows : list (list F)) (point : list F)
+             (r : list F) (idx : list nat) : res LProof :=
+    do ab <- tensor_ml point n_cols;
+    l_open_e (mat_enc G n_ext) wf n_cols n_ext rows (snd ab) r idx.
+  Definition l_check_bd (G : list (list F)) (wf : bool) (n_cols n_ext : nat) (cext : list (list F)) (point : list F) (value : F)
+             (pf : LProof) (r : list F) (idx : list nat) : res bool :=
+    if negb (length (lf_v pf) =? n_cols)%nat then Err EInvalidCommitment else
+    do out <- (if wf then
+                 match lf_wf pf with
+                 | None => Err EInvalidCommitment
+                 | Some w => if negb (length w =? n_cols)%nat then Err EInvalidCommitment else Ok (Some w)
+                 end
+               else Ok None);
+    do _ <- path_loop cext (lf_cols pf) idx (lf_paths pf);
+    do ab <- tensor_ml point n_cols;
+    l_check_e (mat_enc G n_ext) wf n_cols cext (fst ab) (snd ab) value pf r idx.
 End Ligero.
